@@ -1033,21 +1033,36 @@ def run_direct(ctx, idx):
                 _law_close(ctx, "mm_temp_route", e1, e0, rt, slack, lo, desc,
                            "scalar temperature vs constant per-event temperature array",
                            nan_free=nan_free)
+            elif bool(np.all(flat_t == flat_t[0])):
+                # constant per-event array: the whole batch against the scalar route
+                ti = flat_t[0]
+                e1, j1 = _call(ctx, dict(base, temperature=ti if flat_t.dtype != np.float64
+                                         else float(ti)))
+                lo = loose.copy()
+                if j1 is not None:
+                    lo |= (j1["ev"]["cls"] == 1) | j1["ev"]["ambiguous"]
+                else:
+                    lo[:] = True
+                _law_close(ctx, "mm_temp_route", e1, e0, rt, slack, lo, desc,
+                           "constant per-event temperature array vs scalar temperature",
+                           nan_free=nan_free)
             else:
                 for i in rng.choice(n, size=min(n, 2), replace=False):
                     ti = flat_t[i]
                     e1, j1 = _call(ctx, dict(base, temperature=ti if flat_t.dtype != np.float64
                                              else float(ti)))
-                    lo = np.ones(e0.size, dtype=bool)
-                    lo[i] = loose[i]
+                    one = np.array([i])
+                    lo = loose[one].copy()
                     if j1 is not None:
-                        lo[i] |= bool((j1["ev"]["cls"][i] == 1) or j1["ev"]["ambiguous"][i])
+                        lo |= (j1["ev"]["cls"][one] == 1) | j1["ev"]["ambiguous"][one]
                     else:
-                        lo[i] = True
-                    _law_close(ctx, "mm_temp_route", e1, e0, rt, slack, lo,
+                        lo[:] = True
+                    _law_close(ctx, "mm_temp_route",
+                               None if e1 is None else np.asarray(e1).ravel()[one],
+                               e0.ravel()[one], rt, slack[one], lo,
                                dict(desc, event=int(i), T_i=float(ti)),
                                "per-event temperature array vs scalar call with that "
-                               "event's temperature", nan_free=nan_free)
+                               "event's temperature", nan_free=nan_free[one])
         elif law == "other_lut":
             # a call on another table in between ("earlier calls")
             arg2, lut2, _ = build_lut(ctx, rng, idx) if rng.random() < 0.4 else \
